@@ -47,7 +47,12 @@ def _mk(out, seen, impl, init, p1, p2, p3, sched=(1, 2, 3, 1), extra=None):
     out.append(sc)
 
 
+SCALE = float(os.environ.get("VERIF_EVENT_SCALE", "1") or 1)     # development aid: scales the thorough tier's bounds
+
+
 def thin(out, ncore, n):
+    if n >= 100:
+        n = max(8, int(n * SCALE))
     core, rest = out[:ncore], out[ncore:]
     step = max(1, len(rest) // max(1, n))
     out = core + rest[::step][:n]
@@ -110,7 +115,10 @@ def run_real(ctx, part, exe, runs, area, mon, scns, mon_env=None):
         if total <= 0:
             continue
         lp = os.path.join(ctx.work, "log_%s_%s.ndjson" % (part, mode))
-        sums, deaths = vlib.run_batches(ctx, exe, args, total, lp, timeout=1500)
+        sums, deaths = vlib.run_batches(ctx, exe, args, total, lp, timeout=1500 if ctx.quick else 6000)
+        if any(d.get("rc") == -9 for d in deaths):
+            # the driver process ran out of wall-clock time (overloaded machine): inconclusive, never a violation
+            raise vlib.Broken("%s/%s: the driver did not finish within its time budget" % (part, mode))
         execs = sum(s["execs"] for s in sums)
         rep.evaluations += execs
         for s in sums:
@@ -295,6 +303,8 @@ def tlc_behaviours(ctx, part, module, scns, mon, max_guided):
     if not ctx.quick:
         walks += vlib.random_walks(adj, inits, 2000, ctx.rng)
     spec_vs_monitor(ctx, part, walks[::max(1, len(walks) // (500 if ctx.quick else 4000))], scns, "event", mon)
+    if not ctx.quick:
+        max_guided = max(300, int(max_guided * SCALE))
     if len(walks) > max_guided:
         ctx.rng.shuffle(walks)
         walks = walks[:max_guided]
@@ -317,6 +327,8 @@ def tlc_behaviours(ctx, part, module, scns, mon, max_guided):
 
 
 def std_runs(ctx, sp, bp, nb, nscn, dfs_cap, rnd_cap):
+    if not ctx.quick:
+        dfs_cap, rnd_cap = max(5, int(dfs_cap * SCALE)), max(3, int(rnd_cap * SCALE))
     return [("guided", ["--mode", "guided", "--scenarios", sp, "--behaviours", bp], nb),
             ("dfs", ["--mode", "dfs", "--scenarios", sp, "--bound", 2 if ctx.quick else 3, "--cap", dfs_cap], nscn),
             ("random", ["--mode", "random", "--scenarios", sp, "--seed", ctx.seed, "--cap", rnd_cap], nscn)]
